@@ -99,8 +99,14 @@ def split_item_label(label):
   return section, key
 
 def _item_value(cp, key):
+  from ...config._common import ConfigurationException
+  if not ":" in key:
+    raise ConfigurationException("Item '{}' should have the form SECTION_NAME:KEY".format(key))
   section, section_key = split_item_label(key)
-  v = cp.raw_config_parser[section][section_key]
+  raw_cp = cp.raw_config_parser
+  if not section or not raw_cp.has_option(section, section_key):
+    raise ConfigurationException("Item '{}' not found in configuration file".format(key))
+  v = raw_cp[section][section_key]
   return v 
 
 def action_list_items(cp):
